@@ -89,14 +89,16 @@ def compare_sens(defn, m, out, rng, npoints=2):
     # every function exists in a (state, t) and a (t, state) form (the latter is what scipy.integrate.ode is handed); one of
     # the two is drawn per function
     tf = [rng.random() < 0.5 for _ in range(6)]
+    # the by_state option may be any truthy value (a numpy bool from a comparison, 1), not only the builtin constant
+    BS = rng.choice([True, True, np.True_, 1])
     if np_ > 0:
         calls += [("augP", "varsP", (lambda z, t: m.ode_and_sensitivity_T(t, z)) if tf[0] else (lambda z, t: m.ode_and_sensitivity(z, t))),
-                  ("augS", "varsS", (lambda z, t: m.ode_and_sensitivity_T(t, z, by_state=True)) if tf[1]
-                   else (lambda z, t: m.ode_and_sensitivity(z, t, by_state=True))),
+                  ("augS", "varsS", (lambda z, t: m.ode_and_sensitivity_T(t, z, by_state=BS)) if tf[1]
+                   else (lambda z, t: m.ode_and_sensitivity(z, t, by_state=BS))),
                   ("jacP", "varsP", (lambda z, t: m.ode_and_sensitivity_jacobian_T(t, z)) if tf[2]
                    else (lambda z, t: m.ode_and_sensitivity_jacobian(z, t))),
-                  ("jacS", "varsS", (lambda z, t: m.ode_and_sensitivity_jacobian_T(t, z, by_state=True)) if tf[3]
-                   else (lambda z, t: m.ode_and_sensitivity_jacobian(z, t, by_state=True)))]
+                  ("jacS", "varsS", (lambda z, t: m.ode_and_sensitivity_jacobian_T(t, z, by_state=BS)) if tf[3]
+                   else (lambda z, t: m.ode_and_sensitivity_jacobian(z, t, by_state=BS)))]
     calls += [("augIV", "varsIV", (lambda z, t: m.ode_and_sensitivityIV_T(t, z)) if tf[4] else (lambda z, t: m.ode_and_sensitivityIV(z, t))),
               ("jacIV", "varsIV", (lambda z, t: m.ode_and_sensitivityIV_jacobian_T(t, z)) if tf[5]
                else (lambda z, t: m.ode_and_sensitivityIV_jacobian(z, t)))]
